@@ -166,6 +166,26 @@ def degenerate_scenes(rng, n):
     out.append(("concentric-boxes", unit_box, ("Box", I.copy(), np.array([2.0, 2, 2])), False))
     out.append(("far-clip", unit_box, ("Box", at([400.0, 0, 0]), np.ones(3)), False))
     out.append(("far-1e3", ("Sphere", np.array([1e3, 1e3, 1e3]), 1.0), ("Sphere", np.array([1e3 + 1.5, 1e3, 1e3]), 1.0), False))
+    # exactly concentric placements (MPR perturbs its interior point by ~1e-15 there): flat and solid shapes
+    # centred inside solids, off-axis extents so that the first support point is not on the x-axis
+    rect = ("ConvexHullVertices", np.array([[-0.3, -0.2, 0.0], [0.3, -0.2, 0.0], [0.3, 0.2, 0.0], [-0.3, 0.2, 0.0]]))
+    rect_yz = ("ConvexHullVertices", np.array([[0.0, -0.3, -0.2], [0.0, 0.3, -0.2], [0.0, 0.3, 0.2], [0.0, -0.3, 0.2]]))
+    solids = [("Sphere", np.zeros(3), 1.0), unit_box, ("Ellipsoid", I.copy(), np.array([1.0, 0.7, 0.5])),
+              ("Cylinder", I.copy(), 0.8, 1.5), ("Capsule", I.copy(), 0.6, 1.0)]
+    for sol in solids:
+        for inner in (rect, rect_yz, ("Disk", np.zeros(3), 0.3, np.array([0, 1.0, 0])),
+                      ("Box", I.copy(), np.array([0.2, 0.3, 0.1])), ("Ellipse", np.zeros(3), np.array([[0, 1.0, 0], [0, 0, 1.0]]), np.array([0.3, 0.2]))):
+            out.append(("concentric", sol, inner, False))
+            out.append(("concentric", inner, sol, False))
+    # large polytopes that almost touch: gaps of 1e-9 … 1e-5 times their size
+    for size in (10.0, 100.0):
+        for rel in (1e-9, 3e-9, 1e-8, 3e-8, 1e-7, 1e-6, 1e-5):
+            big = ("Box", I.copy(), np.array([size, size, size]))
+            out.append(("almost-touching-large", big, ("Box", at([size * (1.0 + rel), 0.3 * size * rng.random(), 0.0]),
+                                                       np.array([size, size, size])), False))
+            verts = np.array([[x, y, z] for x in (-0.5, 0.5) for y in (-0.5, 0.5) for z in (-0.5, 0.5)]) * size
+            out.append(("almost-touching-large", ("ConvexHullVertices", verts),
+                        ("ConvexHullVertices", verts + np.array([size * (1.0 + rel), 0.0, 0.1 * size])), False))
     for f in flat:
         out.append(("flat-vs-box", f, unit_box, False))
         out.append(("flat-vs-flat", f, scenes.translate(flat[rng.randrange(len(flat))], [0.25, 0, 0]), False))
@@ -174,6 +194,15 @@ def degenerate_scenes(rng, n):
         out.append(("needle-vs-box", nd, unit_box, False))
         out.append(("needle-vs-needle", nd, scenes.translate(needles[rng.randrange(len(needles))], [0.5, 0.5, 0]), False))
         out.append(("needle-identical", nd, nd, True))
+    # the same special scenes away from the origin (a common translation keeps every relative placement exact when
+    # the offset is dyadic, and adds rounding in the support points when it is not)
+    moved = []
+    for (label, s1, s2, same) in out:
+        if same:
+            continue
+        off = np.array([0.3, -1.7, 2.2]) if rng.random() < 0.5 else np.array([rng.choice([-64.0, 8.0, 0.5, 512.0]) for _ in range(3)])
+        moved.append((label + "+offset", scenes.translate(s1, off), scenes.translate(s2, off), False))
+    out += moved
     while len(out) < n:
         lattice = rng.random() < 0.5
         s1 = scenes.collider_spec(rng, lattice, margin_prob=0.15)
@@ -224,7 +253,7 @@ PRIM_TYPES = {"Sphere", "Capsule", "Box", "Ellipsoid", "Cylinder"}
 
 def classify_finding(ep, label, s1, s2, status, c1=None, c2=None):
     """attach a known-finding id only when the failure is exactly that defect"""
-    if ep == "epa" and status == "nonfinite" and c1 is not None:
+    if ep == "epa" and status in ("nonfinite", "assert") and c1 is not None:
         # F-epa-incomplete-simplex: GJK left the loop with fewer than 4 simplex points (e.g. identical or deeply
         # nested shapes: |v| = 0 after the first support point); rows n_points..3 of the returned simplex are
         # np.empty garbage and EPA builds its initial tetrahedron from them
@@ -232,6 +261,14 @@ def classify_finding(ep, label, s1, s2, status, c1=None, c2=None):
             recs = record_jolt(c1, c2, "distance")
             if recs and recs[-1]["state"] == "Intersection" and (recs[-1]["n_after"] or 0) < 4:
                 return "F-epa-incomplete-simplex"
+            if status == "assert":
+                # F-epa-capacity (same defect as C07's): with a complete simplex the capacity assertion fires on
+                # deeply overlapping polytopes; confirmed by a rerun with a large capacity that returns normally
+                from distance3d import gjk, epa
+                dist, _, _, simplex = gjk.gjk_distance_jolt(c1, c2)
+                mtv, faces, success = epa.epa(simplex, c1, c2, max_iter=1024, max_loose_edges=512, max_faces=4096)
+                if finite(mtv):
+                    return "F-epa-capacity"
         except Exception:  # noqa
             pass
     return None
@@ -272,7 +309,7 @@ def run_scene(ctx, label, s1, s2, same):
                 ctx.branch("outcome", "epa:capacity-assert(smooth)")
                 continue
             ctx.fail(name, a, "AssertionError: %s" % res, "no exception except EPA's capacity assertion for smooth shapes",
-                     "exception check", finding=classify_finding(name, label, s1, s2, status))
+                     "exception check", finding=classify_finding(name, label, s1, s2, status, c1, c2))
             continue
         if status.startswith("exc:"):
             ctx.fail(name, a, "%s: %s" % (status[4:], res), "no exception", "exception check",
@@ -387,7 +424,7 @@ def correspondence(ctx):
     from distance3d.utils import EPSILON
     drv = core.Driver("c19-trace")
     plan = []
-    n = ctx.budget(150, 2500)
+    n = ctx.budget(330, 2500)
     for label, s1, s2, same in degenerate_scenes(ctx.rng, n):
         c1 = scenes.build(s1)
         c2 = c1 if same else scenes.build(s2)
@@ -449,16 +486,17 @@ def cap_formulas():
     nep = consts.get("gjk__gjk_nesterov_accelerated_primitives__gjk_nesterov_accelerated_primitives__max_interations", 128)
     ep = consts.get("epa__epa__max_iter", 64)
     return {"gjk_intersection_libccd": 2 * lib,
-            "gjk_nesterov_accelerated_distance": 2 * ne, "gjk_nesterov_accelerated_intersection": 2 * ne,
-            "gjk_nesterov_accelerated(accel)": 2 * ne,
-            "gjk_nesterov_accelerated_primitives_distance": 2 * nep,
-            "gjk_nesterov_accelerated_primitives_intersection": 2 * nep,
-            "gjk_nesterov_accelerated_primitives(accel)": 2 * nep}
+            # one extra pass: the pass that switches the acceleration off does not increment i
+            "gjk_nesterov_accelerated_distance": 2 * (ne + 1), "gjk_nesterov_accelerated_intersection": 2 * (ne + 1),
+            "gjk_nesterov_accelerated(accel)": 2 * (ne + 1),
+            "gjk_nesterov_accelerated_primitives_distance": 2 * (nep + 1),
+            "gjk_nesterov_accelerated_primitives_intersection": 2 * (nep + 1),
+            "gjk_nesterov_accelerated_primitives(accel)": 2 * (nep + 1)}
 
 
 def search(ctx):
     COUNTER.install()
-    n = ctx.budget(110, 2500) * (3 if ctx.extra.get("search_boost") else 1)
+    n = ctx.budget(330, 2500) * (3 if ctx.extra.get("search_boost") else 1)
     for label, s1, s2, same in degenerate_scenes(ctx.rng, n):
         if ctx.extra.get("hangs", 0) >= 3:
             break
